@@ -49,7 +49,8 @@ PROPS = {
                 note="Trusted: numpy contracts of the closure; the verdict of a user filter is a function of the k-mer only.",
                 technique="chain of contracts (mask <=> filter, arcs inside mask, strand is a walk, k-mer shift lemma) + bounded chain driver"),
     "C03": dict(title="The coding graph is the largest closed subgraph, or a ValueError", level="other", bounded=["C03"], design="8/C03",
-                proof=["dsw.spiderweb.connect_coding_graph#t234", "harness.c03_smaller_mask_smaller_graph", "dsw.graphized.remove_useless", "dsw.graphized.obtain_latters", "lemma.ssum_zero_iff",
+                proof=["dsw.spiderweb.connect_coding_graph#t234", "harness.c03_smaller_mask_smaller_graph", "dsw.graphized.remove_useless", "dsw.graphized.latter_map_to_accessor#threshold",
+                       "dsw.graphized.obtain_latters", "lemma.ssum_zero_iff",
                        "lemma.ssum_mono_eq", "lemma.ipow_mono"],
                 explanation="PROVED for thresholds 2, 3, 4 on the real connect_coding_graph (whole function): with an ARBITRARY closed subset S of the "
                             "mask as a universally quantified ghost input, the returned vertex set is inside the mask, closed (every retained vertex "
@@ -66,11 +67,15 @@ PROPS = {
                             "classification lists are abstracted to their element sets (append / membership only), the position of each key in the "
                             "insertion order is an explicit ghost function (requires: every key is listed once - true of every Python dict).  BOUNDED "
                             "(never counted as proved): the threshold-1 clean-up phase (networkx find_cycle, try/except: outside the engine); termination "
-                            "of remove_useless's `while True` (partial correctness only); that latter_map_to_accessor(threshold=t) writes that largest "
-                            "sub-map back into an accessor equal to generation's (the composition is exercised by the bounded driver on every mask).",
+                            "of remove_useless's `while True` (partial correctness only).  COMPOSITION PROVED on the real latter_map_to_accessor with a threshold "
+                            "(trimming used by its contract, then the conversion loop): for every latter map of shift successors the accessor written is "
+                            "exactly the accessor of a map `trimmed` (existential witness) that is a sub-map of the input, closed for the threshold and "
+                            "contains every vertex set closed in the input - the largest closed sub-graph, which is how generation's result is characterised "
+                            "too (connect_coding_graph#t234).  What is left to a one-line meta-argument (two greatest elements of the same order are equal) and "
+                            "to the bounded driver (every mask): that the two accessors are therefore identical.",
                 demoted=["threshold 1: information-free-cycle removal phase (networkx) - bounded B2, all 65,536 order-2 masks in the thorough tier",
-                         "latter-map trimming: termination of remove_useless and the composition latter_map_to_accessor(threshold=t) == generation - bounded B2 "
-                         "(the trimming function itself is proved to return the largest closed sub-map)"],
+                         "latter-map trimming: termination of remove_useless; the final identity latter_map_to_accessor(threshold=t) == generation - bounded B2 "
+                         "(both sides are proved to be the largest closed sub-graph; their equality is a meta-argument, not a discharged obligation)"],
                 claim="Mixed: thresholds 2..4 deductive for all k >= 1 and all masks (no bound) incl. monotonicity in the mask; latter-map trimming deductive as a largest-closed-sub-map contract on remove_useless (partial correctness); threshold 1 and the end-to-end trimming agreement bounded.",
                 note="Trusted: numpy zeros/ones/where/sum/fancy-indexing contracts (DESIGN 3). Bounded part: exhaustive order-2 masks only in the thorough tier.",
                 technique="greatest-fixed-point loop contracts on connect_coding_graph and remove_useless (arbitrary closed set as ghost input) + exhaustive order-2 run-time contract checking"),
